@@ -606,6 +606,9 @@ def token_parent(flavour, timeout):
     return {"StartAt": "T", "States": {"T": t}}
 
 
+# what a worker may send as its own, ordinary reply to a waitForTaskToken request (it must be ignored whatever JSON it is:
+# only an error reply — an object with a truthy errorType — fails the task; everything else waits for the callback)
+PLAIN = [{"ordinary": "reply"}, None, "accepted", 202, [1, 2], False, 0, "", {}, {"errorType": ""}, 1.0]
 OUTPUTS = [{"cb": 1}, [1, 2], "s", 0, None, False, {"Error": "E-in-output"}, {"errorType": "T-in-output", "errorMessage": "m"}, {"Error": ""}, {}]
 
 
@@ -613,6 +616,7 @@ def gen_callback_case(rng):
     flavour = rng.choice(["invoke", "invoke", "child"])
     c = {"kind": "callback", "flavour": flavour, "timeout": rng.choice([5, 5, 50]), "x": rng.randint(0, 9)}
     c["reply"] = rng.choice(["none", "ok-before", "ok-after", "error-before", "error-after"]) if flavour == "invoke" else "none"
+    c["plain"] = rng.randrange(len(PLAIN)) if rng.random() < 0.6 else 0
     acts = []
     n = rng.randint(1, 5)
     for _ in range(n):
@@ -670,7 +674,7 @@ def run_callback_case(c):
     def plan(n, payload):
         held["req"] = payload
         if c["reply"].startswith("ok"):
-            return simmod.Reply("ok", {"ordinary": "reply"}, 0 if c["reply"].endswith("before") else 1500)
+            return simmod.Reply("ok", PLAIN[c.get("plain", 0)], 0 if c["reply"].endswith("before") else 1500)
         if c["reply"].startswith("error"):
             return simmod.Reply("err", None, 0 if c["reply"].endswith("before") else 1500, error="Worker.Failed", message="wm")
         return simmod.Reply("none")
@@ -696,7 +700,7 @@ def run_callback_case(c):
     else:
         obs["ops"].append(["launch", eid, ea, "STANDARD", "token", "STANDARD", "arn:child", {}])
     if c["reply"] == "ok-before":
-        obs["ops"].append(["reply", cid, None, {"ordinary": "reply"}])
+        obs["ops"].append(["reply", cid, None, PLAIN[c.get("plain", 0)]])
     if c["reply"] == "error-before":
         obs["ops"].append(["reply", cid, None, {"errorType": "Worker.Failed", "errorMessage": "wm"}])
     after_done = False
@@ -707,7 +711,7 @@ def run_callback_case(c):
             settle(s, until_ms=c["timeout"] * 1000 + 1)
             if c["reply"].endswith("after") and not after_done:
                 after_done = True
-                obs["ops"].append(["reply", cid, None, {"ordinary": "reply"} if c["reply"].startswith("ok") else {"errorType": "Worker.Failed", "errorMessage": "wm"}])
+                obs["ops"].append(["reply", cid, None, PLAIN[c.get("plain", 0)] if c["reply"].startswith("ok") else {"errorType": "Worker.Failed", "errorMessage": "wm"}])
             obs["ops"].append(["timeout", cid])
             t, action, params, body, succ = tok, "SendTaskSuccess", {"output": json.dumps({"late": 1})}, {"late": 1}, True
         elif a[0] == "success":
@@ -733,7 +737,7 @@ def run_callback_case(c):
     # the rest of the run: the ordinary late reply, the timeout
     settle(s, until_ms=10 ** 9)
     if c["reply"].endswith("after") and not after_done:
-        obs["ops"].append(["reply", cid, None, {"ordinary": "reply"} if c["reply"].startswith("ok") else {"errorType": "Worker.Failed", "errorMessage": "wm"}])
+        obs["ops"].append(["reply", cid, None, PLAIN[c.get("plain", 0)] if c["reply"].startswith("ok") else {"errorType": "Worker.Failed", "errorMessage": "wm"}])
     if not any(o[0] == "timeout" for o in obs["ops"]):
         obs["ops"].append(["timeout", cid])
     obs["eid"], obs["cid"] = eid, cid
